@@ -197,7 +197,10 @@ impl Checker {
     }
 
     pub fn fail(&mut self, prop: &str, kind: &str, op: &Op, detail: String) {
-        let prop = if self.cfg.adopt.contains(&prop) { self.cfg.target.clone() } else { prop.to_string() };
+        // dirty-row obligations stated by the target property itself (C12: DECSCNM marks all
+        // rows; C16: resize marks all rows) are charged to it when its own operation misses them
+        let own_dirty = prop == "C17" && op.owner() == self.cfg.target;
+        let prop = if self.cfg.adopt.contains(&prop) || own_dirty { self.cfg.target.clone() } else { prop.to_string() };
         let prop = prop.as_str();
         if self.cfg.wants(prop) {
             self.fails.push(Failure {
